@@ -202,6 +202,16 @@ func (c *exprCase) coq() (string, bool) {
 	return fmt.Sprintf("{| ec_expr := %s; ec_env := %s; ec_obs := %s; ec_model := %s |}", c.Coq, env, o, vh.Bool(c.Model)), ok && ok2
 }
 
+// ---------------------------------------------------------------- processAssignments
+
+type assignCase struct {
+	Cfg      string
+	Flat     bool
+	Steps    [][]cmd.VerifC11In
+	Results  []cmd.VerifC11StepResult
+	Produced [][]interface{}
+}
+
 // ---------------------------------------------------------------- chains
 
 type chainCase struct {
@@ -236,12 +246,12 @@ func main() {
 	rng := vh.Rng(*seed*1000 + int64(*shard))
 	defer cmd.VerifLogScope()()
 
-	nCollect, nFn, nExpr, nChain := 500, 700, 350, 220
+	nCollect, nFn, nExpr, nChain, nAssign := 500, 700, 350, 220, 300
 	if *tier == "thorough" {
-		nCollect, nFn, nExpr, nChain = 8000, 10000, 5000, 3600
+		nCollect, nFn, nExpr, nChain, nAssign = 24000, 30000, 15000, 10000, 14000
 	}
 	if *nshards > 1 {
-		nCollect, nFn, nExpr, nChain = nCollect / *nshards, nFn / *nshards, nExpr / *nshards, nChain / *nshards
+		nCollect, nFn, nExpr, nChain, nAssign = nCollect / *nshards, nFn / *nshards, nExpr / *nshards, nChain / *nshards, nAssign / *nshards
 	}
 	stats := map[string]int{}
 	distinct := map[string]bool{}
@@ -407,6 +417,112 @@ func main() {
 		addExpr(eg.expr(), env)
 	}
 	ev.Close()
+	ev2 := cmd.VerifC11NewEvaluator()
+
+	// ---- 1d. processAssignments directly
+	var assignItems []string
+	var assignCases []assignCase
+	for i := 0; i < nAssign; i++ {
+		c := assignConfig(rng)
+		g := newValGen(rng, false)
+		g.pBool = 0.15
+		nsteps := 3 + rng.Intn(12)
+		var steps [][]cmd.VerifC11In
+		for k := 0; k < nsteps; k++ {
+			var st []cmd.VerifC11In
+			for _, in := range c.Inputs {
+				if rng.Intn(10) < 7 {
+					st = append(st, cmd.VerifC11In{Name: in, Val: assignInput(rng, g)})
+				}
+			}
+			steps = append(steps, st)
+		}
+		text := c.text()
+		res := cmd.VerifC11Assign(text, "al", c.Inputs, steps)
+		if res.ParseErr != "" {
+			stats["assign-parse-rejected"]++
+			if stats["assign-parse-rejected"] <= 3 {
+				fmt.Println("assign parse rejected:", res.ParseErr, "\n"+text)
+			}
+			continue
+		}
+		ac := assignCase{Cfg: text, Flat: c.Flat, Steps: steps, Results: res.Steps}
+		var clauses []string
+		for _, cl := range c.Clauses {
+			clauses = append(clauses, fmt.Sprintf("{| as_target := %s; as_mode := %s; as_n := %d; as_expr := %s |}",
+				coqStr(cl.Target), modeCoq[cl.Mode], cl.N, cl.E.Coq()))
+		}
+		ok := true
+		var stepItems []string
+		for k, st := range steps {
+			sr := res.Steps[k]
+			var ins []string
+			env := map[string]interface{}{}
+			for _, in := range st {
+				s, o := coqVal(in.Val)
+				ok = ok && o
+				ins = append(ins, "("+audgen.CoqVar([2]string{"", in.Name})+", "+s+")")
+				env[in.Name] = in.Val
+			}
+			status := 0
+			if sr.Panic != "" {
+				status = 2
+			} else if sr.Err != "" {
+				status = 1
+			}
+			stats[fmt.Sprintf("assign-step-status-%d", status)]++
+			var vals, acts, prods []string
+			var prodJSON []interface{}
+			for _, cl := range c.Clauses {
+				s, o := coqVal(sr.Vals[cl.Target])
+				ok = ok && o
+				vals = append(vals, "("+audgen.CoqVar([2]string{"", cl.Target})+", "+s+")")
+				acts = append(acts, "("+audgen.CoqVar([2]string{"", cl.Target})+", "+vh.Bool(sr.Act[cl.Target])+")")
+				if c.Flat {
+					fresh := true
+					for _, d := range cl.Deps {
+						if _, present := env[d]; !present {
+							fresh = false
+						}
+					}
+					if !fresh {
+						prods = append(prods, "PNot")
+						prodJSON = append(prodJSON, "not-evaluated")
+						continue
+					}
+					r, ce, ee, p := ev2.Eval(cl.E.Src(), env)
+					if ce != "" || ee != "" || p != "" {
+						prods = append(prods, "PErr")
+						prodJSON = append(prodJSON, "error: "+ce+ee+p)
+					} else {
+						s, o := coqVal(r)
+						ok = ok && o
+						prods = append(prods, "(PVal "+s+")")
+						prodJSON = append(prodJSON, r)
+					}
+				}
+			}
+			ac.Produced = append(ac.Produced, prodJSON)
+			stepItems = append(stepItems, fmt.Sprintf("{| st_in := [%s]; st_status := %d; st_vals := [%s]; st_act := [%s]; st_produced := [%s] |}",
+				strings.Join(ins, "; "), status, strings.Join(vals, "; "), strings.Join(acts, "; "), strings.Join(prods, "; ")))
+		}
+		if !ok {
+			stats["assign-unrepresentable"]++
+			continue
+		}
+		acfg := &audgen.Config{}
+		item := fmt.Sprintf("{| as_cfg := %s;\n     as_inputs := [(\"\", \"q1\"); (\"\", \"q2\")];\n     as_clauses := [%s];\n     as_steps := [%s];\n     as_flat := %s |}",
+			acfg.CoqCfg(nil, res.Watchers, res.ArrayVars), strings.Join(clauses, "; "), strings.Join(stepItems, ";\n       "), vh.Bool(c.Flat))
+		assignItems = append(assignItems, item)
+		assignCases = append(assignCases, ac)
+		if c.Flat {
+			stats["assign-flat"]++
+		} else {
+			stats["assign-chained"]++
+		}
+		note("a"+item, len(c.Clauses) >= 2 && nsteps >= 5)
+	}
+	ev2.Close()
 
 	// ---- 2. chains through the real audition
 	cg := &chainGen{r: rng, modalities: cmd.VerifModalities()}
@@ -521,9 +637,10 @@ func main() {
 		"Definition collect_cases : list collect_case := "+vh.ListNL(collectItems)+".\n"+
 			"Definition fn_cases : list fn_case := "+vh.ListNL(fnItems)+".\n"+
 			"Definition expr_cases : list expr_case := "+vh.ListNL(exprItems)+".\n"+
+			"Definition assign_cases : list assign_case := "+vh.ListNL(assignItems)+".\n"+
 			"Definition chain_cases : list chain_case := "+vh.ListNL(chainItems)+".\n")
 	vh.WriteJSON(*out, "cases.json", map[string]interface{}{
-		"collect": collectCases, "fn": fnCases, "expr": exprCases, "chain": chainCases})
+		"collect": collectCases, "fn": fnCases, "expr": exprCases, "assign": assignCases, "chain": chainCases})
 	var samples []interface{}
 	if len(collectCases) > 0 {
 		samples = append(samples, map[string]interface{}{"kind": "collect", "case": collectCases[len(collectCases)/2]})
@@ -537,8 +654,8 @@ func main() {
 		samples = append(samples, map[string]interface{}{"kind": "chain", "config": c.Cfg, "events": c.Events, "final": c.Result.Vals})
 	}
 	vh.WriteJSON(*out, "summary.json", map[string]interface{}{
-		"collect": len(collectCases), "fn": len(fnCases), "expr": len(exprCases), "chain": len(chainCases),
-		"cases": len(collectCases) + len(fnCases) + len(exprCases) + len(chainCases),
+		"collect": len(collectCases), "fn": len(fnCases), "expr": len(exprCases), "assign": len(assignCases), "chain": len(chainCases),
+		"cases": len(collectCases) + len(fnCases) + len(exprCases) + len(assignCases) + len(chainCases),
 		"distinct_nontrivial": nontriv, "stats": stats, "samples": samples,
 	})
 }
